@@ -1,6 +1,7 @@
 package mainchain
 
 import (
+	"crypto/sha256"
 	"encoding/hex"
 	"encoding/json"
 	"math/big"
@@ -37,6 +38,7 @@ type GStep struct {
 	W   int64    `json:"w"`
 	K   string   `json:"k"`
 	ID  string   `json:"id"`
+	Gap int      `json:"gap"` // blocks since the previous step (every step is a block of its own: >= 1)
 }
 
 // GScenario is a sequence of steps on a fresh deployment.
@@ -54,7 +56,7 @@ const limbBase = 1_000_000
 var (
 	gasUsers = []string{"u1", "u2"}
 	gasCands = []string{"c1", "c2"}
-	gasKeys  = []string{"k1", "k2", "k3"}
+	gasKeys  = []string{"k1", "k2", "k3", "k4"}
 	gasIR    = []string{"r1", "r2", "r3", "r4", "r5", "r6", "r7"}
 	gasCtrs  = []string{"neofs", "proc", "proxy", "alph"}
 )
@@ -78,7 +80,10 @@ type gworld struct {
 	acctN  *names                  // script hash (BE) -> account name
 	sg     map[string]neotest.Signer
 	keyN   *names // candidate public keys
+	skN    *names // public keys of k1..k4 (voters in the stored ballots)
 	idN    *names
+	stored []any // the stored list, in order
+	lastH  int64
 	irPubs [][]byte
 	token  util.Uint160
 	roles  util.Uint160
@@ -103,7 +108,7 @@ func (w *gworld) toL(b *big.Int, what string) []int64 {
 func newGWorld(t *testing.T, sc *GScenario, seed int64) *gworld {
 	c := chain.New(t, sc.NC, seed)
 	w := &gworld{t: t, c: c, sc: sc, h: map[string]util.Uint160{}, acctN: newNames(), sg: map[string]neotest.Signer{}, keyN: newNames(),
-		idN: newNames()}
+		skN: newNames(), idN: newNames()}
 	reg := func(n string, h util.Uint160) {
 		w.h[n] = h
 		w.acctN.reg(n, h.BytesBE())
@@ -123,6 +128,7 @@ func newGWorld(t *testing.T, sc *GScenario, seed int64) *gworld {
 	for i, k := range gasKeys {
 		w.sg[k] = c.NewUser(k, 0)
 		reg(k, w.sg[k].ScriptHash())
+		w.skN.reg(k, chain.Pub(w.sg[k]))
 		if i < sc.NS {
 			stored = append(stored, chain.Pub(w.sg[k]))
 			storedPriv = append(storedPriv, chain.Priv(w.sg[k]))
@@ -152,8 +158,14 @@ func newGWorld(t *testing.T, sc *GScenario, seed int64) *gworld {
 			w.sg["m"+strconv.Itoa(i)] = c.NewUser("nomember"+strconv.Itoa(i), 0)
 		}
 	}
-	w.idN.reg("i1", []byte("id-1"))
-	w.idN.reg("i2", []byte("id-2"))
+	w.stored = stored
+	for _, id := range []string{"i1", "i2", "j1", "a1"} {
+		w.idN.reg(id, []byte("id-"+id))
+	}
+	for _, cn := range gasCands {
+		h := sha256.Sum256(append(append([]byte{}, chain.Pub(w.sg[cn])...), []byte("delete")...))
+		w.idN.reg("del:"+cn, h[:])
+	}
 
 	proc := c.Compile("processing")
 	nf := c.Compile("neofs")
@@ -253,6 +265,8 @@ func (w *gworld) exec(st GStep) chain.Rec {
 			key = "InnerRingCandidateFee"
 		}
 		r = c.Run(w.acct("neofs"), sg, "setConfig", w.idN.val(w.t, st.ID), []byte(key), bigint.ToBytes(amt)) // the VM encoding of the integer
+	case "alphaSame":
+		r = c.Run(w.acct("neofs"), sg, "alphabetUpdate", w.idN.val(w.t, st.ID), w.stored)
 	case "designate":
 		var ks []any
 		for i := 0; i < int(st.W) && i < len(w.irPubs); i++ {
@@ -319,6 +333,8 @@ func (w *gworld) events(evs []state.NotificationEvent) ([]any, map[string]any) {
 		case "Cheque":
 			out = append(out, mk("Cheque", w.acctN.name(chain.ItemBytes(it[1]), &w.bad), "nil", w.toL(chain.ItemBig(it[2]), "ntf.cheque"),
 				w.idN.name(chain.ItemBytes(it[0]), &w.bad)))
+		case "AlphabetUpdate":
+			out = append(out, mk("AlphabetUpdate", "nil", "nil", []int64{0, 0, 0}, w.idN.name(chain.ItemBytes(it[0]), &w.bad)))
 		case "SetConfig":
 			k := "?" + string(chain.ItemBytes(it[1]))
 			switch string(chain.ItemBytes(it[1])) {
@@ -365,11 +381,28 @@ func (w *gworld) observe() map[string]any {
 	o := map[string]any{"gas": gas, "neo": neo, "wfee": []int64{0, 0, 0}, "cfee": []int64{0, 0, 0}, "notary": true}
 	cands := []string{}
 	stray := []string{}
+	bl := []any{}
 	for k, v := range c.Storage(w.acct("neofs")) {
 		kb, _ := hex.DecodeString(k)
 		ks := string(kb)
 		switch {
-		case ks == "alphabet" || ks == "processingScriptHash" || ks == "ballots":
+		case ks == "ballots":
+			it, err := stackitem.Deserialize(v)
+			require.NoError(w.t, err)
+			for _, b := range it.Value().([]stackitem.Item) {
+				f := b.Value().([]stackitem.Item)
+				voters := []string{}
+				for _, vt := range f[1].Value().([]stackitem.Item) {
+					if vb := chain.ItemBytes(vt); vb == nil {
+						voters = append(voters, "nil")
+					} else {
+						voters = append(voters, w.skN.name(vb, &w.bad))
+					}
+				}
+				bl = append(bl, map[string]any{"id": w.idN.name(chain.ItemBytes(f[0]), &w.bad), "voters": voters,
+					"h": chain.ItemBig(f[2]).Int64()})
+			}
+		case ks == "alphabet" || ks == "processingScriptHash":
 		case ks == "notary":
 			o["notary"] = !(len(v) > 0 && v[0] != 0)
 		case ks == "configWithdrawFee":
@@ -404,7 +437,7 @@ func (w *gworld) observe() map[string]any {
 			w.bad = append(w.bad, "designated key outside r1..rN")
 		}
 	}
-	o["cands"], o["candsApi"], o["stray"], o["irN"] = cands, capi, stray, len(des)
+	o["cands"], o["candsApi"], o["stray"], o["irN"], o["bl"] = cands, capi, stray, len(des), bl
 	return o
 }
 
@@ -415,24 +448,56 @@ func runGasScenario(t *testing.T, rec *chain.Recorder, idx int, sc *GScenario, s
 	for n := range w.h {
 		zero[n] = []int64{0, 0, 0}
 	}
+	w.lastH = int64(w.c.Height()) - 1
 	rec.Emit(chain.Rec{"t": idx, "act": "reset", "S": []string{}, "u": "nil", "v": "nil", "amt": []int64{0, 0, 0}, "w": 0, "k": "nil",
-		"id": "nil", "mint": zero, "res": "HALT", "ret": "null", "ntf": []any{}, "obs": obs, "bad": []string{},
+		"id": "nil", "gap": 0, "h": w.lastH, "mint": zero, "res": "HALT", "ret": "null", "ntf": []any{}, "obs": obs, "bad": []string{},
 		"notary": sc.Notary, "skeys": gasKeys[:sc.NS], "nc": sc.NC, "idx": sc.Idx, "ns": sc.NS, "src": sc.Src})
+	// Without Notary the arguments of a cheque are a function of its decision id within a scenario (the
+	// first use of the id fixes receiver and amount): the statement speaks of "the cheque" an id stands for.
+	type chq struct {
+		v   string
+		amt []int64
+	}
+	byID := map[string]chq{}
 	for _, st := range sc.Steps {
-		if !sc.Notary && (st.Act == "cheque" || st.Act == "setFee") {
-			continue // vote-collected without Notary: that is MainChainVote (C17)
-		}
-		if !sc.Notary && st.Act == "candRemove" && !slices.Contains(st.S, st.V) {
-			continue
-		}
 		if len(st.Amt) != 3 {
 			st.Amt = []int64{0, 0, 0}
 		}
 		if st.S == nil {
 			st.S = []string{}
 		}
+		if !sc.Notary && st.Act == "cheque" {
+			if c, ok := byID[st.ID]; ok {
+				st.V, st.Amt = c.v, c.amt
+			} else {
+				byID[st.ID] = chq{st.V, st.Amt}
+			}
+		}
+		if !sc.Notary { // every voter signs its own transaction: at most one stored key among the signers
+			nk := 0
+			var S []string
+			for _, x := range st.S {
+				if slices.Contains(gasKeys[:sc.NS], x) {
+					nk++
+					if nk > 1 {
+						continue
+					}
+				}
+				S = append(S, x)
+			}
+			if S == nil {
+				S = []string{}
+			}
+			st.S = S
+		}
+		if st.Gap > 1 {
+			w.c.Skip(st.Gap - 1)
+		}
 		w.bad = nil
 		r := w.exec(st)
+		h := int64(w.c.Height()) - 1
+		r["gap"], r["h"] = h-w.lastH, h
+		w.lastH = h
 		r["obs"] = w.observe()
 		if w.bad == nil {
 			w.bad = []string{}
@@ -462,7 +527,10 @@ func fromInt0(whole, frac int64) []int64 {
 func randGasScenario(r *rand.Rand) *GScenario {
 	ncs := []int{1, 3, 4, 7}
 	nc := ncs[r.Intn(len(ncs))]
-	sc := &GScenario{Notary: r.Intn(2) == 0, NS: 1 + r.Intn(3), NC: nc, Idx: r.Intn(nc + 1), Src: "rand"}
+	sc := &GScenario{Notary: r.Intn(2) == 0, NS: 1 + r.Intn(4), NC: nc, Idx: r.Intn(nc + 1), Src: "rand"}
+	if !sc.Notary && r.Intn(3) > 0 {
+		return randGasVoteScenario(r, sc)
+	}
 	if r.Intn(4) > 0 && sc.Idx == nc {
 		sc.Idx = r.Intn(nc)
 	}
@@ -494,6 +562,12 @@ func randGasScenario(r *rand.Rand) *GScenario {
 			return []string{natural}
 		}
 	}
+	alphaSig := func() string {
+		if sc.Notary {
+			return "ALPHA"
+		}
+		return gasKeys[r.Intn(sc.NS)]
+	}
 	n := 12 + r.Intn(24)
 	emitPhase := r.Intn(2) == 0
 	if emitPhase {
@@ -518,18 +592,21 @@ func randGasScenario(r *rand.Rand) *GScenario {
 			if r.Intn(2) == 0 {
 				amt = gasAmt(0, r.Int63n(1000))
 			}
-			sc.Steps = append(sc.Steps, GStep{Act: "cheque", S: sigOr("ALPHA"), V: pick(gasUsers), Amt: amt, ID: pick([]string{"i1", "i2"})})
+			sc.Steps = append(sc.Steps, GStep{Act: "cheque", S: sigOr(alphaSig()), V: pick(gasUsers), Amt: amt, ID: pick([]string{"i1", "i2"})})
 		case k < 12:
 			c := pick(gasCands)
 			act := pick([]string{"candAdd", "candAdd", "candRemove"})
 			nat := c
 			if act == "candRemove" && r.Intn(3) == 0 {
 				nat = "STORED"
+				if !sc.Notary {
+					nat = alphaSig()
+				}
 			}
 			sc.Steps = append(sc.Steps, GStep{Act: act, S: sigOr(nat), V: c})
 		case k < 13:
-			sc.Steps = append(sc.Steps, GStep{Act: "setFee", S: sigOr("ALPHA"), K: pick([]string{"wfee", "cfee"}),
-				Amt: [][]int64{gasAmt(0, 0), gasAmt(0, 1), gasAmt(0, 100_0000), gasAmt(1, 0), gasAmt(5, 5), gasAmt(200, 0)}[r.Intn(6)], ID: "i1"})
+			sc.Steps = append(sc.Steps, GStep{Act: "setFee", S: sigOr(alphaSig()), K: pick([]string{"wfee", "cfee"}),
+				Amt: [][]int64{gasAmt(0, 0), gasAmt(0, 1), gasAmt(0, 100_0000), gasAmt(1, 0), gasAmt(5, 5), gasAmt(200, 0)}[r.Intn(6)], ID: "j1"})
 		case k < 14:
 			sc.Steps = append(sc.Steps, GStep{Act: "designate", S: sigOr("CMT"), W: int64(1 + r.Intn(7))})
 		case k < 17:
@@ -551,6 +628,142 @@ func randGasScenario(r *rand.Rand) *GScenario {
 		}
 	}
 	return sc
+}
+
+// randGasVoteScenario: without Notary, cheques collected by votes of the stored keys, interleaved with other
+// pending decisions (fee change, list confirmation, candidate removal), late and repeated votes, strangers,
+// window-boundary gaps, deposits/withdrawals in between; GAS judged on every step.
+func randGasVoteScenario(r *rand.Rand, sc *GScenario) *GScenario {
+	sc.Src = "randvote"
+	pick := func(xs []string) string { return xs[r.Intn(len(xs))] }
+	gaps := []int{1, 1, 1, 1, 1, 1, 2, 3, 19, 20, 20, 21, 21}
+	chqAmt := func() []int64 {
+		return [][]int64{gasAmt(0, 0), gasAmt(0, 1), gasAmt(0, 12345), gasAmt(1, 0), gasAmt(7, 5), gasAmt(60, 0), gasAmt(4000, 1), gasAmt(30000, 0)}[r.Intn(8)]
+	}
+	for _, a := range [][]int64{gasAmt(9000, 0), gasAmt(int64(1+r.Intn(300)), int64(r.Intn(1000)))} {
+		sc.Steps = append(sc.Steps, GStep{Act: "deposit", S: []string{"u1"}, U: "u1", V: "u1", Amt: a, K: "none", Gap: 1})
+	}
+	sc.Steps = append(sc.Steps, GStep{Act: "candAdd", S: []string{"c1"}, V: "c1", Gap: 1})
+	decisions := []GStep{
+		{Act: "cheque", V: pick(gasUsers), Amt: chqAmt(), ID: "i1"},
+		{Act: "cheque", V: pick(gasUsers), Amt: chqAmt(), ID: "i2"},
+		{Act: "cheque", V: pick(gasUsers), Amt: chqAmt(), ID: "i1"}, // same id: the first use fixes the arguments
+		{Act: "setFee", K: pick([]string{"wfee", "cfee"}), Amt: [][]int64{gasAmt(0, 0), gasAmt(0, 100_0000), gasAmt(2, 0)}[r.Intn(3)], ID: "j1"},
+		{Act: "alphaSame", ID: "a1"},
+		{Act: "candRemove", V: "c1"},
+	}
+	weights := []int{0, 0, 0, 1, 1, 2, 3, 4, 5}
+	next := map[int]int{}
+	perm := map[int][]int{}
+	for i := range decisions {
+		perm[i] = r.Perm(sc.NS)
+	}
+	n := 14 + r.Intn(26)
+	for i := 0; i < n; i++ {
+		gap := gaps[r.Intn(len(gaps))]
+		switch k := r.Intn(14); {
+		case k == 0:
+			u := pick(gasUsers)
+			sc.Steps = append(sc.Steps, GStep{Act: "deposit", S: []string{u}, U: u, V: u, Amt: gasAmt(int64(r.Intn(9001)), int64(r.Intn(3))), K: pick([]string{"none", "h20", "b21"}), Gap: gap})
+			continue
+		case k == 1:
+			u := pick(gasUsers)
+			sc.Steps = append(sc.Steps, GStep{Act: "withdraw", S: []string{u}, U: u, W: int64(r.Intn(9002)), Gap: gap})
+			continue
+		case k == 2:
+			c := pick(gasCands)
+			sc.Steps = append(sc.Steps, GStep{Act: pick([]string{"candAdd", "candAdd", "candRemove"}), S: []string{c}, V: c, Gap: gap})
+			continue
+		}
+		d := weights[r.Intn(len(weights))]
+		st := decisions[d]
+		st.Gap = gap
+		switch k := r.Intn(12); {
+		case k == 0:
+			st.S = []string{pick([]string{"X", "u1", "c2", "ALPHA", "STORED"})}
+		case k == 1:
+			st.S = []string{}
+		case k == 2:
+			st.S = []string{gasKeys[r.Intn(len(gasKeys))]} // possibly not a stored key
+		case k < 6:
+			st.S = []string{gasKeys[r.Intn(sc.NS)]} // random stored key: repeats and late votes
+		default:
+			st.S = []string{gasKeys[perm[d][next[d]%sc.NS]]} // next stored key in this decision's order
+			next[d]++
+		}
+		sc.Steps = append(sc.Steps, st)
+	}
+	return sc
+}
+
+// gasVoteTraps: the cheque ballot next to other pending ballots (started before and after it), votes arriving after
+// the payout (repeated voters, voters beyond the threshold), a second full approval, a round broken by the window.
+func gasVoteTraps() []*GScenario {
+	var out []*GScenario
+	u1 := []string{"u1"}
+	for ns := 1; ns <= 4; ns++ {
+		thr := ns*2/3 + 1
+		ks := gasKeys[:ns]
+		chq := GStep{Act: "cheque", V: "u2", Amt: gasAmt(7, 5), ID: "i1", Gap: 1}
+		chq2 := GStep{Act: "cheque", V: "u1", Amt: gasAmt(0, 3), ID: "i2", Gap: 1}
+		fee := GStep{Act: "setFee", K: "wfee", Amt: gasAmt(0, 250_0000), ID: "j1", Gap: 1}
+		same := GStep{Act: "alphaSame", ID: "a1", Gap: 1}
+		rm := GStep{Act: "candRemove", V: "c1", Gap: 1}
+		by := func(st GStep, k string, gap int) GStep {
+			st.S = []string{k}
+			st.Gap = gap
+			return st
+		}
+		sc := &GScenario{Notary: false, NS: ns, NC: 1, Idx: 0, Src: "trap:votepay" + strconv.Itoa(ns)}
+		sc.Steps = append(sc.Steps, GStep{Act: "deposit", S: u1, U: "u1", V: "u1", Amt: gasAmt(100, 0), K: "none", Gap: 1},
+			GStep{Act: "candAdd", S: []string{"c1"}, V: "c1", Gap: 1})
+		// other decisions pending BEFORE the cheque's ballot
+		if ns > 1 {
+			sc.Steps = append(sc.Steps, by(fee, ks[0], 1), by(same, ks[ns-1], 1))
+		}
+		for i := 0; i < thr; i++ { // the quorum: paid by the last one
+			sc.Steps = append(sc.Steps, by(chq, ks[i], 1))
+			if i == 0 && ns > 1 {
+				sc.Steps = append(sc.Steps, by(rm, ks[0], 1), by(chq2, ks[ns-1], 1)) // ballots started AFTER it
+			}
+		}
+		// votes arriving after the payout: repeated voters, voters beyond the threshold, strangers
+		sc.Steps = append(sc.Steps, by(chq, ks[0], 1), by(chq, ks[thr-1], 1), by(chq, "X", 1))
+		for i := thr; i < ns; i++ {
+			sc.Steps = append(sc.Steps, by(chq, ks[i], 1))
+		}
+		sc.Steps = append(sc.Steps, GStep{Act: "withdraw", S: u1, U: "u1", W: 3, Gap: 1})
+		// the other decisions complete, then a second full approval of the same id pays again (legitimately)
+		for i := 0; i < ns; i++ {
+			sc.Steps = append(sc.Steps, by(fee, ks[i], 1), by(rm, ks[ns-1-i], 1), by(same, ks[i], 1), by(chq2, ks[i], 1))
+		}
+		sc.Steps = append(sc.Steps, GStep{Act: "withdraw", S: u1, U: "u1", W: 3, Gap: 1})
+		for i := 0; i < ns; i++ {
+			sc.Steps = append(sc.Steps, by(chq, ks[ns-1-i], 1))
+		}
+		// a round broken by the window: 20 blocks keep it, 21 restart it
+		sc.Steps = append(sc.Steps, by(chq2, ks[0], 1))
+		for i := 1; i < ns; i++ {
+			sc.Steps = append(sc.Steps, by(chq2, ks[i], 20))
+		}
+		sc.Steps = append(sc.Steps, by(chq2, ks[0], 1))
+		for i := 1; i < ns; i++ {
+			sc.Steps = append(sc.Steps, by(chq2, ks[i], 21))
+		}
+		// a payout larger than the balance when the quorum completes
+		big := GStep{Act: "cheque", V: "u2", Amt: gasAmt(5000, 0), ID: "i2", Gap: 1}
+		sc2 := &GScenario{Notary: false, NS: ns, NC: 1, Idx: 0, Src: "trap:votebig" + strconv.Itoa(ns)}
+		sc2.Steps = append(sc2.Steps, GStep{Act: "deposit", S: u1, U: "u1", V: "u1", Amt: gasAmt(100, 0), K: "none", Gap: 1})
+		for i := 0; i < ns; i++ {
+			sc2.Steps = append(sc2.Steps, by(big, ks[i], 1))
+		}
+		sc2.Steps = append(sc2.Steps, GStep{Act: "deposit", S: u1, U: "u1", V: "u1", Amt: gasAmt(9000, 0), K: "none", Gap: 1})
+		for i := 0; i < ns; i++ {
+			sc2.Steps = append(sc2.Steps, by(big, ks[ns-1-i], 1))
+		}
+		out = append(out, sc, sc2)
+	}
+	return out
 }
 
 // ---- traps ----
@@ -642,6 +855,7 @@ func driveGas(t *testing.T, rec *chain.Recorder, raw []json.RawMessage, traps bo
 	}
 	if traps {
 		scs = append(scs, gasTraps()...)
+		scs = append(scs, gasVoteTraps()...)
 	}
 	for i := 0; i < nrand; i++ {
 		scs = append(scs, randGasScenario(r))
